@@ -124,7 +124,7 @@ def grep_audit(prop_id=None, drivers=()):
     if prop_id is None:
         files = {p: open(p, encoding='utf-8').read() for p in lean_files()}
     else:
-        roots = ['SshuttleModel.Props.' + prop_id]
+        roots = prop_modules(prop_id)
         roots += [os.path.join(LEAN_DIR, 'Drivers', d + '.lean') for d in drivers]
         files = import_closure(roots)
     for path, raw in sorted(files.items()):
@@ -135,9 +135,29 @@ def grep_audit(prop_id=None, drivers=()):
     return hits
 
 
+def prop_modules(prop_id):
+    """The Lean modules holding a property's theorems: Props/<ID>.lean and any Props/<ID>_*.lean (theorems of this
+    property that rest on another property's file, e.g. C01's last sentence on the C02 machinery)."""
+    import glob
+    d = os.path.join(LEAN_DIR, 'SshuttleModel', 'Props')
+    extra = sorted(os.path.basename(x)[:-5] for x in glob.glob(os.path.join(d, prop_id + '_*.lean')))
+    return ['SshuttleModel.Props.' + m for m in [prop_id] + extra]
+
+
 def theorems_in(prop_id):
-    """(full theorem names, number of `example`s) in Props/<ID>.lean."""
-    path = os.path.join(LEAN_DIR, 'SshuttleModel', 'Props', prop_id + '.lean')
+    """(full theorem names, number of `example`s) in Props/<ID>.lean and Props/<ID>_*.lean."""
+    names, examples = [], 0
+    for k, mod in enumerate(prop_modules(prop_id)):
+        path = module_path(mod)
+        if k and not os.path.exists(path):
+            continue
+        n, e = _theorems_in_file(path)
+        names += n
+        examples += e
+    return names, examples
+
+
+def _theorems_in_file(path):
     with open(path, encoding='utf-8') as f:
         txt = strip_comments(f.read())
     ns = []
@@ -166,7 +186,8 @@ def axiom_audit(prop_id, names):
     os.makedirs(d, exist_ok=True)
     path = os.path.join(d, 'Audit_%s.lean' % prop_id)
     with open(path, 'w') as f:
-        f.write('import SshuttleModel.Props.%s\n' % prop_id)
+        for m in prop_modules(prop_id):
+            f.write('import %s\n' % m)
         for n in names:
             f.write('#print axioms %s\n' % n)
     rc, out = sh(['lake', 'env', 'lean', path], cwd=LEAN_DIR, timeout=900, env=lean_env())
